@@ -44,6 +44,15 @@ theorem fact_controller_order :
     Karp.Gen.OrchQueue.controllerOrder =
       ["Synced", "HasAny", "MarkedForDeletion", "RequireNoScheduleTaint", "ClearNodeClaimsCondition", "disrupt"] := by decide
 
+/-- the cluster marks and the queue entries are set / removed for EVERY candidate of a command: `MarkForDeletion`,
+    `UnmarkForDeletion` and `CompleteCommand` each consist of one loop over the listed provider ids / candidates that no
+    statement leaves early (an id the cluster state does not know is skipped, the remaining ids are still visited) — the
+    model folds over all live candidates (`startCommand`, `failCommand`, `succeedCommand`) -/
+theorem fact_mark_loops_total :
+    Karp.Gen.OrchQueue.markForDeletionLoops = 1 ∧ Karp.Gen.OrchQueue.markForDeletionLoopExits = 0 ∧
+    Karp.Gen.OrchQueue.unmarkForDeletionLoops = 1 ∧ Karp.Gen.OrchQueue.unmarkForDeletionLoopExits = 0 ∧
+    Karp.Gen.OrchQueue.completeCommandLoops = 1 ∧ Karp.Gen.OrchQueue.completeCommandLoopExits = 0 := by decide
+
 /-- `NewCandidate` consults the queue before anything else -/
 theorem fact_newCandidate_order :
     Karp.Gen.OrchQueue.newCandidateOrder = ["HasAny", "ValidateNodeDisruptable", "ValidatePodsDisruptable"] := by decide
@@ -103,7 +112,7 @@ theorem step_owner (w : World) (s : Step) (j : Nat) :
     · exact Or.inl (hk.owner j)
     · rcases hall j with ⟨ho, _⟩ | ⟨hm, ho, _⟩
       · exact Or.inl ho
-      · exact Or.inr (Or.inr ⟨k, via, rfl, hok, hlt, hm, hfree j hm, ho⟩)
+      · exact Or.inr (Or.inr ⟨k, via, rfl, hok, hlt, hm, (hfree j hm).1, ho⟩)
   | reconcile k on =>
     rw [step_reconcile]
     rcases reconcile_cases k on (reset w) with e | ⟨ci, hc⟩
@@ -125,6 +134,7 @@ theorem step_owner (w : World) (s : Step) (j : Nat) :
     split
     · rfl
     · split <;> rfl
+  | candGone i => exact Or.inl (candGone_cand i (reset w) j).1
   | sync => exact Or.inl rfl
   | restart =>
     right; left
@@ -169,6 +179,7 @@ theorem C08_delete_only_by_owning_pass (w : World) (s : Step) (e : DelEvent) (he
   | start k via => simp [step] at he
   | advance ns => simp [step] at he
   | env op k i => simp [step] at he
+  | candGone i => simp [step] at he
   | sync => simp [step] at he
   | restart => simp [step] at he
   | cleanup => simp [step] at he
@@ -353,11 +364,12 @@ theorem C08_failed_releases (w : World) (k on : Nat) (hfail : (step w (.reconcil
       · rw [hfail] at hs; cases hs
 
 /-- **C08_failed_rolls_back_at_once** — if no fault interferes with the failing pass (quiet plan), the disruption taint
-    and the DisruptionReason condition of every live candidate are removed by that very pass. (Under faults the removal
-    is left to the next cleanup pass: `C08_cleanup_returns_to_service`.) -/
+    and the DisruptionReason condition of every live candidate that still exists are removed by that very pass — also
+    when other candidates of the command have meanwhile gone away (their NotFound is not an error and stops nothing).
+    (Under faults the removal is left to the next cleanup pass: `C08_cleanup_returns_to_service`.) -/
 theorem C08_failed_rolls_back_at_once {w : World} (hq : Quiet w) (hr : 0 < w.retrySteps) (k on : Nat)
     (hfail : (step w (.reconcile k on)).1 = .failed) :
-    ∃ ci K, (candAt w ci).owner = some K ∧ ∀ j ∈ (cmdAt w K).live,
+    ∃ ci K, (candAt w ci).owner = some K ∧ ∀ j ∈ (cmdAt w K).live, (candAt w j).gone = false →
       (candAt (step w (.reconcile k on)).2.2 j).taint = false ∧ (candAt (step w (.reconcile k on)).2.2 j).cond = false := by
   rw [step_reconcile] at hfail ⊢
   rcases reconcile_cases k on (reset w) with e0 | ⟨ci, hc⟩
@@ -376,11 +388,12 @@ theorem C08_rejected_start_inert (w : World) (k : Nat) (via : Bool) (hrej : (ste
   · exact absurd hok hrej
 
 /-- **C08_cleanup_returns_to_service** — once the faults have stopped (no fault of the plan applies to any later call),
-    a cleanup pass on a synced cluster state succeeds and afterwards every node that is neither in the queue, nor
-    marked for deletion, nor going away carries no disruption taint and no DisruptionReason condition. -/
+    a cleanup pass on a synced cluster state succeeds and afterwards every node that still exists and is neither in the
+    queue, nor marked for deletion, nor going away carries no disruption taint and no DisruptionReason condition. -/
 theorem C08_cleanup_returns_to_service {w : World} (hq : Quiet w) (hr : 0 < w.retrySteps) (hs : synced w = true) :
     (step w .cleanup).1 = .ok ∧
     ∀ i, i < w.cands.length → (candAt w i).owner = none → (candAt w i).mark = false → (candAt w i).deleting = false →
+      (candAt w i).gone = false →
       (candAt (step w .cleanup).2.2 i).taint = false ∧ (candAt (step w .cleanup).2.2 i).cond = false :=
   cleanup_quiet (w := (reset w)) hq hr hs
 
@@ -455,6 +468,10 @@ theorem C08_exclusive (w : World) (s : Step) (j K : Nat) (h : (candAt w j).owner
         · rfl
         · split <;> rfl
       rw [this, h] at e; cases e
+    | candGone i =>
+      exfalso
+      have : (candAt (step w (.candGone i)).2.2 j).owner = (candAt w j).owner := (candGone_cand i (reset w) j).1
+      rw [this, h] at e; cases e
     | sync =>
       exfalso
       have : (candAt (step w .sync).2.2 j).owner = (candAt w j).owner := rfl
@@ -483,9 +500,67 @@ theorem C08_start_refuses_queued (w : World) (k : Nat) (via : Bool) (j K : Nat)
   intro hok
   rcases startCommand_owner_mark k via (reset w) with ⟨hne, _⟩ | ⟨_, _, hfree, _⟩
   · exact hne hok
-  · have := hfree j hj
+  · have := (hfree j hj).1
     rw [candAt_reset, h] at this
     cases this
+
+/-! ## 4. Candidates that go away while an action is in flight -/
+
+/-- **C08_gone_keeps_actions** — a candidate that goes away on its own (Node and NodeClaim removed, cluster state
+    informed) issues no Delete, changes no command and no queue entry (the queue is not told: the completing pass of the
+    owning action releases the entry like every other), and touches no other candidate. -/
+theorem C08_gone_keeps_actions (w : World) (i : Nat) :
+    (step w (.candGone i)).2.1 = [] ∧ (step w (.candGone i)).2.2.cmds = w.cmds ∧
+    ∀ j, (candAt (step w (.candGone i)).2.2 j).owner = (candAt w j).owner ∧
+         (j ≠ i → candAt (step w (.candGone i)).2.2 j = candAt w j) :=
+  ⟨rfl, candGone_cmds i (reset w), fun j => ⟨(candGone_cand i (reset w) j).1, (candGone_cand i (reset w) j).2.1⟩⟩
+
+/-- **C08_gone_leaves_nothing** — what is left of a candidate that went away carries no taint, no condition and no
+    deletion mark: there is nothing to roll back for it and nothing that could keep it out of (or in) the capacity. -/
+theorem C08_gone_leaves_nothing (w : World) (i : Nat) (h : (step w (.candGone i)).1 = .ok) :
+    (candAt (step w (.candGone i)).2.2 i).gone = true ∧ (candAt (step w (.candGone i)).2.2 i).taint = false ∧
+    (candAt (step w (.candGone i)).2.2 i).cond = false ∧ (candAt (step w (.candGone i)).2.2 i).mark = false ∧
+    (candAt (step w (.candGone i)).2.2 i).deleting = false ∧
+    (candAt (step w (.candGone i)).2.2 i).owner = (candAt w i).owner := by
+  have := (candGone_self i (reset w) h).2
+  rw [show (step w (.candGone i)).2.2 = (candGone i (reset w)).2 from rfl, this]
+  exact ⟨rfl, rfl, rfl, rfl, rfl, rfl⟩
+
+/-- **C08_start_refuses_gone** — a node the cluster state no longer knows is nobody's candidate: a start whose command
+    lists it is rejected (and is inert by `C08_rejected_start_inert`). -/
+theorem C08_start_refuses_gone (w : World) (k : Nat) (via : Bool) (j : Nat)
+    (hj : j ∈ (cmdAt w k).cands) (h : (candAt w j).gone = true) : (step w (.start k via)).1 ≠ .ok := by
+  intro hok
+  rcases startCommand_owner_mark k via (reset w) with ⟨hne, _⟩ | ⟨_, _, hfree, _⟩
+  · exact hne hok
+  · have := (hfree j hj).2
+    rw [candAt_reset, h] at this
+    cases this
+
+/-- **C08_rollback_complete_for_survivors** — when the queue gives a command up and no fault interferes with that pass,
+    EVERY live candidate that still exists is back in service at once — out of the queue, unmarked (schedulable capacity
+    again), untainted, condition cleared — no matter which other candidates of the command have gone away meanwhile and
+    where they stand in the command's candidate list (`UnmarkForDeletion` skips an id the cluster state does not know
+    and moves on to the next; a NotFound from the API is not an error). -/
+theorem C08_rollback_complete_for_survivors {w : World} (hq : Quiet w) (hr : 0 < w.retrySteps) (k on : Nat)
+    (hfail : (step w (.reconcile k on)).1 = .failed) :
+    ∃ ci K, (candAt w ci).owner = some K ∧
+      ∀ j ∈ (cmdAt w K).live, j < w.cands.length → (candAt w j).gone = false →
+        (candAt (step w (.reconcile k on)).2.2 j).owner = none ∧ (candAt (step w (.reconcile k on)).2.2 j).mark = false ∧
+        (candAt (step w (.reconcile k on)).2.2 j).taint = false ∧ (candAt (step w (.reconcile k on)).2.2 j).cond = false := by
+  rw [step_reconcile] at hfail ⊢
+  rcases reconcile_cases k on (reset w) with e0 | ⟨ci, hc⟩
+  · rw [e0] at hfail; cases hfail
+  · obtain ⟨K, hK, h⟩ := course_failed_quiet hc hfail (quiet_reset hq) hr
+    refine ⟨ci, K, hK, fun j hj hlt hg => ?_⟩
+    rcases course_owner_mark hc j with ⟨hnf, _⟩ | ⟨K', hK', ho, hm⟩
+    · exact absurd hfail hnf
+    · rw [hK] at hK'; cases hK'
+      simp only [candAt_reset, cmdAt_reset, reset_cands] at ho hm
+      rcases hm with ⟨_, hm⟩ | ⟨hs, _⟩
+      · have ht := h j hj hg
+        exact ⟨by rw [ho]; simp [hj, hlt], by rw [hm]; simp [hj, hlt], ht.1, ht.2⟩
+      · rw [hfail] at hs; cases hs
 
 /-! ## The retry window -/
 
@@ -526,6 +601,30 @@ example : (step faultyWorld (.start 0 true)).1 = .launch ∧
     (step (step faultyWorld (.start 0 true)).2.2 .cleanup).1 = .ok ∧
     (step (step faultyWorld (.start 0 true)).2.2 .cleanup).2.2.cands = [{}] := by decide
 example : Quiet (initWorld 3 [([0], 1)] [] [] 4 .wrapAll) := fun _ _ _ => rfl
+/-- a three-node action [0, 1, 2] whose middle candidate goes away while the replacement is awaited, then the
+    replacement disappears: the pass fails, deletes nothing, and candidates 0 AND 2 are released, unmarked, untainted
+    (hypotheses of `C08_rollback_complete_for_survivors`, `C08_gone_keeps_actions`, `C08_gone_leaves_nothing` are met) -/
+def goneWorld : World := initWorld 3 [([0, 1, 2], 1), ([1], 0)] [] [] 4 .waitOnly
+def goneHistory : List Step := [.start 0 true, .reconcile 0 0, .candGone 1, .env .vanish 0 0]
+example : (step (run goneWorld [.start 0 true, .reconcile 0 0]) (.candGone 1)).1 = .ok ∧
+    (run goneWorld goneHistory).cands =
+      [{ taint := true, cond := true, mark := true, owner := some 0 }, { owner := some 0, gone := true },
+       { taint := true, cond := true, mark := true, owner := some 0 }] := by decide
+example : (step (run goneWorld goneHistory) (.reconcile 0 1)).1 = .failed ∧
+    (step (run goneWorld goneHistory) (.reconcile 0 1)).2.1 = [] ∧
+    (step (run goneWorld goneHistory) (.reconcile 0 1)).2.2.cands = [{}, { gone := true }, {}] := by decide
+example : Quiet (run goneWorld goneHistory) ∧ 0 < (run goneWorld goneHistory).retrySteps := ⟨fun _ _ _ => rfl, by decide⟩
+/-- … the same when the action times out instead, and a later action over the gone node is refused -/
+example : (step (run goneWorld [.start 0 true, .candGone 0, .advance 600000000001]) (.reconcile 0 2)).1 = .failed ∧
+    (step (run goneWorld [.start 0 true, .candGone 0, .advance 600000000001]) (.reconcile 0 2)).2.2.cands =
+      [{ gone := true }, {}, {}] ∧
+    (step (run goneWorld [.candGone 1]) (.start 1 false)).1 = .notcand := by decide
+/-- … and when the replacement becomes ready the pass still issues a Delete for every live candidate (the one for the
+    gone NodeClaim is answered NotFound, which is not an error) and succeeds -/
+example : (step (run goneWorld [.start 0 true, .candGone 1, .env .init 0 0]) (.reconcile 0 1)).1 = .succeeded ∧
+    ((step (run goneWorld [.start 0 true, .candGone 1, .env .init 0 0]) (.reconcile 0 1)).2.1.map (·.cand)) = [0, 1, 2] ∧
+    ((step (run goneWorld [.start 0 true, .candGone 1, .env .init 0 0]) (.reconcile 0 1)).2.2.cands.map (·.deleting)) =
+      [true, false, true] := by decide
 /-- two actions, one node: the second start is refused (hypothesis of `C08_start_refuses_queued`) -/
 example : (step (run (initWorld 2 [([0], 1), ([0, 1], 1)] [] [] 4 .wrapAll) [.start 0 true]) (.start 1 false)).1 = .busy := by
   decide
